@@ -29,6 +29,7 @@ from funtracks.user_actions import (UserAddEdge, UserAddNode, UserDeleteEdge, Us
                                     UserSwapPredecessors, UserUpdateNodeAttrs)
 
 T, TID, LID, POS, CUS = "t", "track_id", "lineage_id", "pos", "custom"
+ECUS = "edge_custom"  # a registered custom edge feature that no annotator recomputes
 
 USER_ACTIONS = ["UserAddEdge", "UserDeleteEdge", "UserSwapPredecessors", "UserDeleteNode", "UserAddNode",
                 "UserUpdateNodeAttrs"]
@@ -78,14 +79,25 @@ def build(ctx, cfg):
     p.cus0 = [z3.Int(f"cus{i}") for i in ids]
     p.pos0 = [Tok(f"pos{i}") for i in ids]
     with_lineage = cfg.get("lineage", True)
+    multi_pos = cfg.get("multi_pos", False)
+    p.multi_pos = multi_pos
     for s in range(N + 1):
         g.alive[s] = p.alive0[s] if s < N else False
         for t in range(N + 1):
             g.E[s][t] = p.adj0[s][t] if (s != t and s < N and t < N) else False
         if s < N:
-            g.nattr[s] = {T: SInt(p.t0[s]), POS: p.pos0[s], TID: SInt(p.tid0[s]), CUS: SInt(p.cus0[s])}
+            g.nattr[s] = {T: SInt(p.t0[s]), TID: SInt(p.tid0[s]), CUS: SInt(p.cus0[s])}
+            if multi_pos:
+                g.nattr[s]["y"], g.nattr[s]["x"] = Tok(f"y{s}"), Tok(f"x{s}")
+            else:
+                g.nattr[s][POS] = p.pos0[s]
             if with_lineage:
                 g.nattr[s][LID] = SInt(p.lid0[s])
+    p.ecus0 = [[z3.Int(f"ecus{i}_{j}") for j in ids] for i in ids]
+    for s in range(N):
+        for t in range(N):
+            if s != t:
+                g.eattr[(s, t)] = {ECUS: SInt(p.ecus0[s][t])}
     sh = I.Shape(g)
     p.sh0 = sh
     pre = dict(I.forest(sh))
@@ -99,7 +111,9 @@ def build(ctx, cfg):
     ctx.assume(And(list(pre.values())))
 
     tr = SolutionTracks(nx.DiGraph(), ndim=3, time_attr=T, tracklet_attr=TID,
-                        lineage_attr=LID if with_lineage else None)
+                        lineage_attr=LID if with_lineage else None, pos_attr=["y", "x"] if multi_pos else None)
+    tr.features[ECUS] = {"feature_type": "edge", "value_type": "int", "num_values": 1, "required": False,
+                         "default_value": None}
     if not with_lineage:
         # a solution without lineage ids: feature not registered / not active
         tr.disable_features([tr.features.lineage_key])
@@ -127,6 +141,8 @@ def build(ctx, cfg):
     ctx.input("tid", p.tid0[:N])
     ctx.input("lid", p.lid0[:N])
     ctx.input("cus", p.cus0[:N])
+    ctx.input("ecus", [row[:N] for row in p.ecus0[:N]])
+    ctx.input("multi_pos", multi_pos)
     ctx.input("succ_order", g.order_log)
     ctx.input("max_tid", p.maxt)
     ctx.input("max_lid", p.maxl)
@@ -285,16 +301,28 @@ def perform(ctx, p, cfg):
         elif kind in ("UserAddNode", "AddNode"):
             n = p.ids[p.N - 1 + ctx.choose(2, "newid")]  # the last ordinary slot or the spare one
             nt, ntid, nlid, ncus = z3.Int("new_t"), z3.Int("new_tid"), z3.Int("new_lid"), z3.Int("new_cus")
-            shape = ctx.choose(5 if (p.with_lineage and kind == "AddNode") else 4, "attrs")
-            attrs = {T: SInt(nt), TID: SInt(ntid), POS: Tok("newpos"), CUS: SInt(ncus)}
-            shape_name = ["full", "no_time", "no_track_id", "no_pos", "with_lineage"][shape]
-            if shape == 1:
+            names = ["full", "no_time", "no_track_id", "no_pos"]
+            if p.multi_pos:
+                names.append("partial_pos")
+            if p.with_lineage and kind == "AddNode":
+                names.append("with_lineage")
+            shape_name = names[ctx.choose(len(names), "attrs")]
+            shape = 0 if (shape_name == "full" and p.with_lineage and kind == "AddNode") else 1
+            attrs = {T: SInt(nt), TID: SInt(ntid), CUS: SInt(ncus)}
+            if p.multi_pos:
+                attrs["y"], attrs["x"] = Tok("newy"), Tok("newx")
+            else:
+                attrs[POS] = Tok("newpos")
+            if shape_name == "no_time":
                 del attrs[T]
-            elif shape == 2:
+            elif shape_name == "no_track_id":
                 del attrs[TID]
-            elif shape == 3:
-                del attrs[POS]
-            elif shape == 4:
+            elif shape_name == "no_pos":
+                for kk in (POS, "y", "x"):
+                    attrs.pop(kk, None)
+            elif shape_name == "partial_pos":
+                del attrs["x"]
+            elif shape_name == "with_lineage":
                 attrs[LID] = SInt(nlid)
             named["tid"] = ntid
             named["new"] = n
